@@ -225,6 +225,70 @@ def p256_cred_with_x_prefix(prefix=b"\x04", kind="ES256-P256"):
     return Cred(kind, sk=_load_or_make("ec_p256_x_prefix_" + prefix.hex(), make))
 
 
+def rsa_cred_structured(structure, kind="RS256"):
+    """A genuine 2048-bit RSA credential whose PRIMES have arithmetic structure: 'roca' - both primes are k*M + (65537^a mod M) for M the primorial of 2..167, the shape of
+    the Infineon RSALib keys (CVE-2017-15361) that ROCA detectors fingerprint; 'close-primes' - |p - q| < 2^520 (Fermat-factorable).  Weak, but perfectly conformant keys."""
+    import random as _random
+
+    def is_prime(n, rnd):
+        if n < 2:
+            return False
+        for sp in (2, 3, 5, 7, 11, 13, 17, 19, 23, 29, 31, 37):
+            if n % sp == 0:
+                return n == sp
+        d, s_ = n - 1, 0
+        while d % 2 == 0:
+            d //= 2
+            s_ += 1
+        for _ in range(24):
+            a = rnd.randrange(2, n - 1)
+            x = pow(a, d, n)
+            if x in (1, n - 1):
+                continue
+            for _ in range(s_ - 1):
+                x = x * x % n
+                if x == n - 1:
+                    break
+            else:
+                return False
+        return True
+
+    def make():
+        rnd = _random.Random(structure)
+        e = 65537
+        if structure == "roca":
+            M = 1
+            for p_ in range(2, 168):
+                if all(p_ % q_ for q_ in range(2, int(p_ ** 0.5) + 1)):
+                    M *= p_
+            def prime():
+                while True:
+                    a = rnd.randrange(1, 2 ** 60)
+                    k_ = rnd.getrandbits(1024 - M.bit_length()) | (1 << (1023 - M.bit_length()))
+                    c = k_ * M + pow(65537, a, M)
+                    if c.bit_length() == 1024 and c % e != 1 and is_prime(c, rnd):
+                        return c
+            while True:
+                p, q = prime(), prime()
+                if p != q and (p * q).bit_length() in (2047, 2048):
+                    break
+        else:
+            while True:
+                base = rnd.getrandbits(1024) | (3 << 1022) | 1
+                p = base
+                while not (p % e != 1 and is_prime(p, rnd)):
+                    p += 2
+                q = p + (rnd.getrandbits(500) | 1) * 2
+                while not (q % e != 1 and is_prime(q, rnd)):
+                    q += 2
+                if (p * q).bit_length() == 2048:
+                    break
+        phi = (p - 1) * (q - 1)
+        d = pow(e, -1, phi)
+        return rsa.RSAPrivateNumbers(p, q, d, d % (p - 1), d % (q - 1), pow(q, -1, p), rsa.RSAPublicNumbers(e, p * q)).private_key()
+    return Cred(kind, sk=_load_or_make(f"rsa_structured_{structure}", make))
+
+
 def rsa_cred_bits(bits, kind="RS256"):
     """An RSA credential with a modulus of exactly `bits` bits (sizes that are not multiples of 8 / unusually large ones)."""
     def make():
